@@ -699,7 +699,6 @@ impl Run {
 
     /// clause S2 for one client: a ConfigChangeNotifyRequest naming `k` arrives in its response channel
     async fn expect_push(&mut self, opi: usize, slot: u8, k: usize, why: &str) -> Result<(), Fail> {
-        let key = cfg_key(k);
         let (kd, kg, kt) = KEYS[k.min(KEYS.len() - 1)];
         // the manager has handled every NotifyConfig the change produced once it answers this
         self.conn_list().await?;
@@ -758,7 +757,6 @@ impl Run {
                         if DECLARED[declared as usize].is_none() {
                             self.label("push_to_client_without_setup_request");
                         }
-                        let _ = key;
                         return Ok(());
                     }
                     seen.push(format!("{} {}/{}/{}", ty, t, g, d));
